@@ -3,5 +3,5 @@
 import TopSearch.Model.Ktn
 namespace TopSearch.Gen.Ktn
 def cfg : TopSearch.Ktn.Cfg :=
-  { addTsCountsOnlyNew := true, removeRenumbersHistory := false }
+  { addTsCountsOnlyNew := true, removeRenumbersHistory := true }
 end TopSearch.Gen.Ktn
